@@ -84,6 +84,18 @@ def cases(shard, nshards, seed, tier):
     for fn in ("tests/1ehz-assembly-1.cif", "tests/1E7K_1_C.cif"):
         if mine():
             yield {"family": "cli-stdout-under-loglevel", "file": fn}
+    # every knotted pairing of up to 8 nucleotides through the fall-back path (first-come-first-served text is the
+    # specification there): no back-end, and a back-end that raises
+    for n8 in range(4, 9):
+        for pairs in gen2d.matchings(n8):
+            if len(pairs) < 2:
+                continue
+            crossing = any(a < c < b < d or c < a < d < b for (a, b) in pairs for (c, d) in pairs)
+            if not crossing:
+                continue
+            for cfg, beh in (("none", "ok"), ("cbc", "raise")):
+                if mine():
+                    yield {"family": "exhaustive-fallback", "n": n8, "pairs": pairs, "config": cfg, "behaviour": beh, "entry": "getter"}
     for fam, n, pairs in structs:
         for cfg, beh in cells():
             for entry in ENTRIES:
